@@ -323,7 +323,7 @@ func c01Inputs(kind string) []diffInput {
 
 // C01.tmpl — whole-pipeline differential against R-lua.
 //
-//verif:harness prop=C01 tier=quick bounds="92 program templates organised by compiler special case (multiple assignment shapes, destination kinds, relational/logical contexts, loops, goto, tables, closures, varargs, errors, coercions); inputs: 3 symbolic float64 / 3 symbolic 32-bit integers / 2 values of any scalar type"
+//verif:harness prop=C01 tier=quick bounds="93 program templates organised by compiler special case (multiple assignment shapes, destination kinds, relational/logical contexts, loops, goto, tables, closures, varargs, errors, coercions); inputs: 3 symbolic float64 / 3 symbolic 32-bit integers / 2 values of any scalar type"
 func H_C01_tmpl() {
 	t := c01Templates[VChoice(len(c01Templates))]
 	diffRun(t.src, t.src, c01Inputs(t.kind), Options{})
